@@ -9,7 +9,7 @@ sees the same tree for all spellings:
     np.ndim(X) / np.size(X) / np.shape(X)                       ->  X.ndim / X.size / X.shape
     np.append(a, b[, axis])                                     ->  np.concatenate((a, b)[, axis])       (a bare number c becomes [c])
     np.logical_and(a, b) / logical_or / logical_not(a)          ->  a & b / a | b / ~a
-    np.power(a, b) / pow(a, b)                                  ->  a ** b
+    np.power(a, b) / pow(a, b) / np.square(a)                   ->  a ** b / a ** 2;      np.eye(n) -> np.identity(n)
     e * e   (same simple operand)                               ->  e ** 2
     not x in y                                                  ->  x not in y
     X[::-1]                                                     ->  np.flip(X, axis=0)
@@ -70,6 +70,10 @@ class Canon(ast.NodeTransformer):
                 new = ast.UnaryOp(op=ast.Invert(), operand=node.args[0])
             elif _is_np(f, "power") and len(node.args) == 2 and not node.keywords:
                 new = ast.BinOp(left=node.args[0], op=ast.Pow(), right=node.args[1])
+            elif _is_np(f, "square") and len(node.args) == 1 and not node.keywords:
+                new = ast.BinOp(left=node.args[0], op=ast.Pow(), right=ast.Constant(value=2))
+            elif _is_np(f, "eye") and len(node.args) == 1 and not node.keywords:
+                new = ast.Call(func=ast.Attribute(value=f.value, attr="identity", ctx=ast.Load()), args=list(node.args), keywords=[])
         elif isinstance(f, ast.Name) and f.id == "pow" and len(node.args) == 2 and not node.keywords:
             new = ast.BinOp(left=node.args[0], op=ast.Pow(), right=node.args[1])
         if new is None and isinstance(f, ast.Attribute) and isinstance(f.value, ast.Name) and f.value.id in ("np", "numpy"):
